@@ -5,7 +5,8 @@ and the helpers shared by harness/c05.py and harness/c13.py.
 
 The probes' `apply_location` is the location function `probe` of lean/drivers/DrvGrid.lean:
 markers in the first element of the driving column (cm_future; obs for DeltaChange) select the failure modes
-    99 -> raise ProbeError      98 -> raise ProbeError2
+    99 -> raise ProbeError("…")   98 -> raise ProbeError2("…")   95 -> bare `assert` (no args)   94 -> raise ProbeError() (no args)
+    93 -> raise ProbeError2(42, None) (non-string args)   92 -> exception whose __str__ raises   91 -> raise ProbeError("")
     97 -> series of the wrong length (T+1)      96 -> series of length 1
 otherwise   out[k] = 10^6 * drive[k] + 10^3 * wsum(a) + wsum(b),   wsum(x) = sum_k (k+1) x[k]
 (drive, a, b) = (cm_future, obs, cm_hist), for DeltaChange (obs, cm_hist, cm_future).  With data in 0..9 and at
@@ -25,6 +26,16 @@ from ibicus.debias import DeltaChange  # noqa: E402
 from ibicus.debias._debiaser import Debiaser  # noqa: E402
 
 M_ERR, M_ERR2, M_LONG, M_ONE = 99, 98, 97, 96
+# further *shapes* of exceptions a user-defined debiaser realistically raises (all derive from Exception; classes derived
+# directly from BaseException — KeyboardInterrupt, SystemExit — are not caught by `except Exception` and are out of scope)
+M_ASSERT, M_NOARGS, M_NONSTR, M_STRRAISES, M_EMPTY = 95, 94, 93, 92, 91
+# marker -> exception class name (what lean/drivers/DrvGrid.lean prints for that marker)
+ERRNAME = {M_ERR: "ProbeError", M_ERR2: "ProbeError2", M_ASSERT: "AssertionError", M_NOARGS: "ProbeError",
+           M_NONSTR: "ProbeError2", M_STRRAISES: "StrRaises", M_EMPTY: "ProbeError"}
+ERRSHAPE = {M_ERR: "message", M_ERR2: "message, other class", M_ASSERT: "bare assert (no args)", M_NOARGS: "raise ProbeError() (no args)",
+            M_NONSTR: "non-string args (42, None)", M_STRRAISES: "__str__ raises, no args", M_EMPTY: "empty message"}
+# order in which the shapes are dealt out to the failing cells of a subset: neighbours get different classes
+ERR_CYCLE = (M_ERR, M_ASSERT, M_ERR2, M_NOARGS, M_STRRAISES, M_NONSTR, M_EMPTY)
 NPROCS_QUICK = (1, 2, 3, 5)
 
 
@@ -34,6 +45,15 @@ class ProbeError(Exception):
 
 class ProbeError2(Exception):
     pass
+
+
+class StrRaises(Exception):
+    """an exception that cannot be rendered"""
+
+    def __str__(self):
+        raise RuntimeError("this exception has no text")
+
+    __repr__ = Exception.__repr__
 
 
 def wsum(x):
@@ -46,6 +66,16 @@ def encode(drive, a, b, shift=0):
         raise ProbeError("probe marker 99")
     if d0 == M_ERR2:
         raise ProbeError2("probe marker 98")
+    if d0 == M_ASSERT:
+        assert d0 != M_ASSERT  # message-less AssertionError: e.args == ()
+    if d0 == M_NOARGS:
+        raise ProbeError()
+    if d0 == M_NONSTR:
+        raise ProbeError2(42, None)
+    if d0 == M_STRRAISES:
+        raise StrRaises()
+    if d0 == M_EMPTY:
+        raise ProbeError("")
     if d0 == M_LONG:
         return np.zeros(drive.size + 1, dtype=drive.dtype)
     if d0 == M_ONE:
@@ -91,8 +121,15 @@ def run_apply(deb, obs, hist, fut, parallel=False, nproc=1, failsafe=False, prog
         try:
             out = deb.apply(obs, hist, fut, progressbar=progressbar, parallel=parallel, nr_processes=nproc, failsafe=failsafe, **kw)
         except Exception as ex:  # noqa: BLE001
-            return ("error", type(ex).__name__, str(ex)[:160])
+            return ("error", type(ex).__name__, safe_str(ex))
     return ("ok", out)
+
+
+def safe_str(ex):
+    try:
+        return str(ex)[:160]
+    except Exception:  # noqa: BLE001
+        return "<unprintable %s>" % type(ex).__name__
 
 
 def canon(r):
